@@ -193,7 +193,9 @@ namespace sqf
             iterator insert(iterator start, TIterator begin, TIterator end) { return m_value.insert(start, begin, end); }
 
             //#TODO emplace back
-            bool push_back(sqf::runtime::value val) { m_value.push_back(std::move(val)); if (!recursion_test()) { m_value.pop_back(); return false; } return true; }
+            // (an array without recursion gets one by an insertion only if the inserted value leads back to the array:
+            //  looking at that value is enough, the cost does not grow with the array)
+            bool push_back(sqf::runtime::value val) { if (!val.empty() && val.data()->reaches(this)) { return false; } m_value.push_back(std::move(val)); return true; }
             sqf::runtime::value pop_back() { auto back = m_value.back(); m_value.pop_back(); return back; }
 
             void reverse() { std::reverse(m_value.begin(), m_value.end()); }
